@@ -163,6 +163,38 @@ def history(ctx, rng, n, steps):
         prev = p
 
 
+def interesting_bytes():
+    """byte values that mean something to the decoder: every integer literal below 256 in the current source of the state
+    response parser, their neighbours, and the usual edges"""
+    import ast
+    import inspect
+    import msmart.device.AC.command as cmd
+    vals = {0, 1, 2, 0x0F, 0x10, 0x1F, 0x20, 0x3F, 0x40, 0x7F, 0x80, 0xF0, 0xFE, 0xFF}
+    try:
+        for fn in (cmd.StateResponse._parse, cmd.StateResponse._parse_temperature):
+            for n in ast.walk(ast.parse(inspect.getsource(fn).lstrip() if False else __import__("textwrap").dedent(inspect.getsource(fn)))):
+                if isinstance(n, ast.Constant) and isinstance(n.value, int) and not isinstance(n.value, bool) and 0 <= n.value <= 255:
+                    vals |= {n.value, (n.value + 1) & 0xFF, (n.value - 1) & 0xFF}
+    except Exception:  # noqa
+        pass
+    return sorted(vals)
+
+
+def pairwise(ctx, rng, n, thorough):
+    """two payload bytes at interesting values at once, every pair of positions"""
+    vals = interesting_bytes()
+    if not thorough:
+        vals = [v for v in vals if v in (0, 1, 0x10, 0x1F, 0x20, 0x70, 0x7F, 0x80, 0xFF)] or vals[:9]
+    base = bytes(base_payload(rng, n))
+    for i in range(1, n):
+        for j in range(i + 1, n):
+            for u in vals:
+                for v in (vals if thorough else [u]):
+                    p = bytearray(base)
+                    p[i], p[j] = u, v
+                    one(ctx, "pairwise", bytes(p), style="crc")
+
+
 def base_payload(rng, n=None):
     n = n if n is not None else rng.choice([16, 19, 20, 21, 22, 23, 24, 30])
     p = bytearray(rng.randrange(256) for _ in range(n))
@@ -209,6 +241,7 @@ def run(ctx):
     for n in (16, 17, 19, 20, 22, 23, 30):
         for _ in range(2 if not thorough else 30):
             history(ctx, rng, n, 3 * n)
+    pairwise(ctx, rng, 23, thorough)
     # "the attributes exposed after a refresh equal the reported values" through the WHOLE stack, with an older report
     # pushed by the unit before the refresh (shared with C01): the answer to the refresh is what counts
     if ctx.driver:
